@@ -23,7 +23,7 @@ def collect(filters):
         mp = os.path.join(d, "meta.json")
         if os.path.exists(mp) and os.path.exists(os.path.join(d, "patch.diff")):
             m = json.load(open(mp))
-            items.append({"name": "seeded/" + os.path.basename(d), "property": m["property"], "patch": os.path.join(d, "patch.diff"), "kind": "seeded"})
+            items.append({"name": "seeded/" + os.path.basename(d), "property": m.get("check_with", m["property"]), "seeded_for": m["property"], "patch": os.path.join(d, "patch.diff"), "kind": "seeded"})
     if filters:
         items = [i for i in items if any(f == i["property"] or f in i["name"] for f in filters)]
     return items
